@@ -755,3 +755,65 @@ def LATE_UNITS():
     # valued on its own terms too, whatever product is being priced (the contract lives with the control variates, c07)
     from contracts import c07
     return [c07.ControlUnderlyings()]
+
+
+class PathDependentPayoffRepresentation(Lemma):
+    """"identity and logarithmic process representations give the same [...] value for the same spot path", for the products
+    whose payoff reads the PATH (stateful barrier flag, running maximum of the look-back): a product set up for a logarithmic
+    process and handed the log-path is worth what the same product set up for an identity process is worth on the spot path
+    (real Product.update / underlying_value / __call__, real Barrier / LookBack bodies; 3 path points, the barrier anywhere)."""
+    prop = "C17"
+    cases = ("DOWN_AND_OUT", "DOWN_AND_IN", "UP_AND_OUT", "UP_AND_IN")      # LookBack.process raises in both representations (unfinished in the library)
+
+    def __init__(self):
+        self.name = "property:path-dependent-payoff-agrees-between-representations"
+
+    def _product(self, vc, case, strike, level):
+        PAY = "rpylib.product.payoff:"
+        if case == "LookBack":
+            pay = vc.new(PAY + "LookBack", level)
+        else:
+            pay = vc.new(PAY + "Barrier", strike, vc.enum(PAY + "PayoffType", "CALL"), vc.enum(PAY + "BarrierType", case), level)
+        return vc.new("rpylib.product.product:Product", vc.new(UND + "Spot"), pay, 1.0)
+
+    def prove(self, vc, case):
+        nm = f"{self.name}[{case}]"
+        path = mk_path(vc, "path", (3,))
+        strike, level = vc.real("strike"), vc.real("barrier_or_prefixed_maximum")
+        vc.assume(And(strike > 0, level > 0))
+        times = [0.0, 0.5, 1.0]
+        LOG = vc.enum(PR + "ProcessRepresentation", "LOG")
+        IDENT = vc.enum(PR + "ProcessRepresentation", "IDENDITY")
+        p_id, p_log = self._product(vc, case, strike, level), self._product(vc, case, strike, level)
+        vc.method(p_id, "update", IDENT)
+        vc.method(p_log, "update", LOG)
+        v_id = vc.method(p_id, "__call__", vc.method(p_id, "underlying_value", times, path, path))
+        lp = log_of(vc, path)
+        v_log = vc.method(p_log, "__call__", vc.method(p_log, "underlying_value", times, lp, lp))
+        vc.check(nm + "::same-value-for-the-same-spot-path", same(v_id, v_log))
+
+    def replay(self, model, clause, case):
+        pay, prd, und = native_mod("rpylib.product.payoff"), native_mod("rpylib.product.product"), native_mod("rpylib.product.underlying")
+        PRn = native_mod("rpylib.process.process").ProcessRepresentation
+        cands = [[max(fl(v), 1e-3) for v in model.get("path", [])][:3], [100.0, 85.0, 108.0], [100.0, 112.0, 108.0]]
+        k0, l0 = fl(model.get("strike", 100.0)), fl(model.get("barrier_or_prefixed_maximum", 90.0))
+        for path, strike, level in [(c, k, l) for c in cands if len(c) == 3 for (k, l) in ((k0, l0), (100.0, 90.0), (100.0, 105.0))]:
+            def mk():
+                if case == "LookBack":
+                    po = pay.LookBack(level)
+                else:
+                    po = pay.Barrier(strike, pay.PayoffType.CALL, getattr(pay.BarrierType, case), level)
+                return prd.Product(und.Spot(), po, 1.0)
+            a, b = mk(), mk()
+            a.update(PRn.IDENDITY)
+            b.update(PRn.LOG)
+            p = np.array(path, dtype=float)
+            t = np.array([0.0, 0.5, 1.0])
+            va = float(np.ravel(a(a.underlying_value(t, p, p)))[0])
+            vb = float(np.ravel(b(b.underlying_value(t, np.log(p), np.log(p))))[0])
+            if abs(va - vb) > 1e-9 * max(1.0, abs(va)):
+                return (True, {"payoff": case, "spot_path": path, "strike": strike, "barrier_or_prefixed_maximum": level, "value_identity_representation": va, "value_log_representation": vb})
+        return (False, {})
+
+
+UNITS += [PathDependentPayoffRepresentation()]
